@@ -1877,6 +1877,16 @@ func (c *Conn) prepareLegacyPacket(
 	if !ok {
 		return incomingPacketState{}, false
 	}
+	if header.ContentType == protocol.ContentTypeChangeCipherSpec && header.Epoch != 0 {
+		// change_cipher_spec is only ever sent in epoch 0 (there is no renegotiation) and the
+		// cipher suites hand it back undecrypted, so in a later epoch it is unauthenticated
+		// input: it must not advance the read epoch, burn a replay slot or raise an alert.
+		c.log.Debugf("discarded change_cipher_spec outside epoch 0 (epoch: %d, seq: %d)",
+			header.Epoch, header.SequenceNumber,
+		)
+
+		return incomingPacketState{}, false
+	}
 	if c.handleFutureLegacyPacket(header, rAddr, buf, bufferLease) {
 		return incomingPacketState{}, false
 	}
